@@ -258,3 +258,85 @@ def single_alias_env(fn):
 def dealias(expr, env):
     from . import pysym
     return pysym.subst(expr, env)
+
+
+def truth_states(g, names, skip=("exc",), ghost=None):
+    """Path-sensitive truthiness analysis of simple locals.  Abstract values: None (not assigned yet), "T" (truthy), "F" (falsy,
+    including None/False), "U" (unknown).  Transfer: `x = <constant>` sets T/F, `x = y` copies, anything else sets U, a `for`
+    target becomes U.  Condition nodes `x`, `not x` (decomposed by the CFG builder), `x is None`, `x is not None` filter the
+    states and refine U on their outgoing edges (`x is not None` refines to T: intended for locals that hold None or an object).
+    Returns ({node id: set of state tuples on entry}, {name: index})."""
+    names = list(names)
+    ghost_nodes = set(ghost[1]) if ghost else set()
+    if ghost:
+        names.append(ghost[0])      # ghost[0]: name; ghost[1]: node ids whose normal exit sets it T and whose exceptional exit sets it F
+    idx = {f: i for i, f in enumerate(names)}
+
+    def assign(st, name, v):
+        st = list(st)
+        st[idx[name]] = v
+        return tuple(st)
+
+    def step(node, st):
+        a = node.ast
+        if isinstance(a, ast.Assign) and len(a.targets) == 1 and isinstance(a.targets[0], ast.Name) and a.targets[0].id in idx:
+            v = a.value
+            if isinstance(v, ast.Constant):
+                return assign(st, a.targets[0].id, "T" if v.value else "F")
+            if isinstance(v, ast.Name) and v.id in idx:
+                return assign(st, a.targets[0].id, st[idx[v.id]] or "U")
+            return assign(st, a.targets[0].id, "U")
+        if isinstance(a, ast.Assign):
+            for t in a.targets:
+                for x in ast.walk(t):
+                    if isinstance(x, ast.Name) and x.id in idx:
+                        st = assign(st, x.id, "U")
+            return st
+        if isinstance(a, (ast.For, ast.AsyncFor)) and node.kind == "cond":
+            for x in ast.walk(a.target):
+                if isinstance(x, ast.Name) and x.id in idx:
+                    st = assign(st, x.id, "U")
+        return st
+
+    def test_of(node):
+        """(name, label on which the name is truthy) for a condition node testing one tracked name"""
+        e = node.ast
+        if isinstance(e, ast.Name) and e.id in idx:
+            return e.id, "T"
+        if isinstance(e, ast.Compare) and len(e.ops) == 1 and isinstance(e.left, ast.Name) and e.left.id in idx \
+                and isinstance(e.comparators[0], ast.Constant) and e.comparators[0].value is None:
+            if isinstance(e.ops[0], ast.IsNot):
+                return e.left.id, "T"
+            if isinstance(e.ops[0], ast.Is):
+                return e.left.id, "F"
+        return None, None
+
+    init = [None] * len(names)
+    if ghost:
+        init[idx[ghost[0]]] = "F"
+    IN = {g.entry.id: {tuple(init)}}
+    work = [g.entry.id]
+    while work:
+        a = work.pop()
+        node = g.nodes[a]
+        for st in list(IN[a]):
+            out = step(node, st)
+            nm, truthy_lab = test_of(node) if node.kind == "cond" and not isinstance(node.ast, (ast.For, ast.While)) else (None, None)
+            for b, lab in g.succ[a]:
+                if lab in skip and not (a in ghost_nodes and lab == "exc"):
+                    continue
+                o2 = out
+                if a in ghost_nodes:
+                    o2 = assign(o2, ghost[0], "F" if lab == "exc" else "T")
+                    out_ = o2
+                if nm is not None and lab in ("T", "F"):
+                    v = out[idx[nm]]
+                    want = "T" if lab == truthy_lab else "F"
+                    if v in ("T", "F") and v != want:
+                        continue
+                    o2 = assign(o2, nm, want)
+                cur = IN.setdefault(b, set())
+                if o2 not in cur:
+                    cur.add(o2)
+                    work.append(b)
+    return IN, idx
